@@ -221,6 +221,6 @@ pub fn run(args: &Args) -> i32 {
     report.set("distinct_failure_results", json!(outcomes.len()));
     report.set("variants", json!(variants.iter().map(|v| v.name()).collect::<Vec<_>>()));
     report.set("exhaustive", json!(true));
-    report.set("rule", json!("from every state reached by <= state_depth steps of H from 5 base states: every transaction body of 1..3 queries over a 16-query body alphabet followed by Err from the closure, and each of 10 single queries that fail after partial work; the order-insensitive canonical dump (elements, endpoints, property sets, aliases, index contents, node count) must be unchanged"));
+    report.set("rule", json!("from every state reached by <= state_depth steps of H from 6 base states: every transaction body of 1..3 queries over a 16-query body alphabet followed by Err from the closure, and each of 10 single queries that fail after partial work; the order-insensitive canonical dump (elements, endpoints, property sets, aliases, index contents, node count) must be unchanged"));
     report.finish()
 }
